@@ -139,3 +139,57 @@ pub fn mdesc_from_lib<Pk: MiniscriptKey>(d: &Descriptor<Pk>) -> Result<MDesc, St
         }
     })
 }
+
+
+// ---------------------------------------------------------------------------------------
+// mirror AST -> library value through `Miniscript::from_ast` only (no text, no script)
+
+/// Builds the library value bottom-up with `Miniscript::from_ast` at every node.  `Err` carries
+/// the first refusal (a lock value or threshold the typed wrappers refuse, or `from_ast` itself).
+pub fn ms_from_node_ast<C: ScriptContext>(n: &Node) -> Result<Miniscript<DK, C>, String> {
+    use miniscript::miniscript::decode::Terminal;
+    use miniscript::{AbsLockTime, RelLockTime, Threshold};
+    use std::sync::Arc;
+    let sub = |x: &Node| -> Result<Arc<Miniscript<DK, C>>, String> { Ok(Arc::new(ms_from_node_ast::<C>(x)?)) };
+    let keys = |ks: &Vec<String>| -> Result<Vec<DK>, String> { ks.iter().map(|k| key(k)).collect() };
+    let e = |x: &dyn std::fmt::Display| x.to_string();
+    let t: Terminal<DK, C> = match n {
+        Node::True => Terminal::True,
+        Node::False => Terminal::False,
+        Node::PkK(k) => Terminal::PkK(key(k)?),
+        Node::PkH(k) => Terminal::PkH(key(k)?),
+        Node::RawPkH(h) => Terminal::RawPkH(bitcoin::hashes::hash160::Hash::from_str(h).map_err(|x| e(&x))?),
+        Node::After(v) => Terminal::After(AbsLockTime::from_consensus(*v).map_err(|x| e(&x))?),
+        Node::Older(v) => Terminal::Older(RelLockTime::from_consensus(*v).map_err(|x| e(&x))?),
+        Node::Sha256(h) => Terminal::Sha256(bitcoin::hashes::sha256::Hash::from_str(h).map_err(|x| e(&x))?),
+        Node::Hash256(h) => Terminal::Hash256(miniscript::hash256::Hash::from_str(h).map_err(|x| e(&x))?),
+        Node::Ripemd160(h) => Terminal::Ripemd160(bitcoin::hashes::ripemd160::Hash::from_str(h).map_err(|x| e(&x))?),
+        Node::Hash160(h) => Terminal::Hash160(bitcoin::hashes::hash160::Hash::from_str(h).map_err(|x| e(&x))?),
+        Node::Alt(x) => Terminal::Alt(sub(x)?),
+        Node::Swap(x) => Terminal::Swap(sub(x)?),
+        Node::Check(x) => Terminal::Check(sub(x)?),
+        Node::DupIf(x) => Terminal::DupIf(sub(x)?),
+        Node::Verify(x) => Terminal::Verify(sub(x)?),
+        Node::NonZero(x) => Terminal::NonZero(sub(x)?),
+        Node::ZeroNotEqual(x) => Terminal::ZeroNotEqual(sub(x)?),
+        Node::AndV(x, y) => Terminal::AndV(sub(x)?, sub(y)?),
+        Node::AndB(x, y) => Terminal::AndB(sub(x)?, sub(y)?),
+        Node::AndOr(x, y, z) => Terminal::AndOr(sub(x)?, sub(y)?, sub(z)?),
+        Node::OrB(x, y) => Terminal::OrB(sub(x)?, sub(y)?),
+        Node::OrD(x, y) => Terminal::OrD(sub(x)?, sub(y)?),
+        Node::OrC(x, y) => Terminal::OrC(sub(x)?, sub(y)?),
+        Node::OrI(x, y) => Terminal::OrI(sub(x)?, sub(y)?),
+        Node::Thresh(k, subs) => {
+            let mut v = Vec::new();
+            for s2 in subs {
+                v.push(sub(s2)?);
+            }
+            Terminal::Thresh(Threshold::new(*k, v).map_err(|x| e(&x))?)
+        }
+        Node::Multi(k, ks) => Terminal::Multi(Threshold::new(*k, keys(ks)?).map_err(|x| e(&x))?),
+        Node::SortedMulti(k, ks) => Terminal::SortedMulti(Threshold::new(*k, keys(ks)?).map_err(|x| e(&x))?),
+        Node::MultiA(k, ks) => Terminal::MultiA(Threshold::new(*k, keys(ks)?).map_err(|x| e(&x))?),
+        Node::SortedMultiA(k, ks) => Terminal::SortedMultiA(Threshold::new(*k, keys(ks)?).map_err(|x| e(&x))?),
+    };
+    Miniscript::from_ast(t).map_err(|x| x.to_string())
+}
